@@ -93,6 +93,14 @@ CHECKS = {
          "the text-wave record are checked too.",
          "Trusted: vt/vcdparse.py (90 lines). Net numbering order is controlled through the object-hash seam (4 permutations).",
          "DESIGN.md 6.C16", "E1 E2 E4"),
+ "C08": ("exploration",
+         "bounded exhaustive enumeration of connection multisets x statement orders x side flips x object-hash permutations; nets/writers vs union-find + driver propagation from the IR; simulation vs reference",
+         "Over a fixed 4-component hierarchy with a 52-entry alphabet of legal connections (signal-signal at each level, slices, slices of slices, struct fields, slices of struct fields, "
+         "constants, slices overlapping / containing / inside block-driven slices) every multiset of size <= 3 (4) that the harness's own bit-level analysis finds legal is elaborated "
+         "under every statement order, side flips and hash permutations; get_all_value_nets() must equal the connected components with the unique driver as writer, identically for all "
+         "orders, and every signal must simulate to the reference value.",
+         "Trusted: vt/irref.py driver propagation and the role table in c08.expected_nets. Sets it finds illegal are skipped (C09's domain). Quick tier takes every third triple family.",
+         "DESIGN.md 6.C08", "E1 E2"),
 }
 
 NOT_YET = {}
